@@ -3,6 +3,7 @@ import random
 import vlib
 import gen_rules
 import evalcommon as ec
+import lbuf
 
 
 def ast_strings(ast):
@@ -85,6 +86,62 @@ def boundary_templates():
             out.append('\\1.%s%d' % (sign, n))
     out += ['\\1.-', '\\1.+', '\\1. ', '\\1.- 1', '\\1.--1', '\\1.+-1', '\\1.-x', '\\2.-1\\.', '\\1.\\-1']
     return out
+def exact_cases(src, tdir):
+    """Exact-size family: interpolated strings whose result, or one of whose substituted pieces, ends exactly on, one below and one
+    above every capacity of the buffers they are built in (interpolate(): 64 bytes doubling; the X-Label value: 128 doubling; sizes
+    read from the buffer_alloc() calls of the source being checked, tools/lbuf.py).  Captures of those lengths alone, after and before
+    literal text, two captures in a row, labels appended to an existing X-Label value, ${path} of those lengths (through the length of
+    the message's file name); in label, exec, add-header and move.  -> [(Case, meta)], meta = what the X-Label must be, if any."""
+    lens = lbuf.exact_lengths(src, 60, 1100)
+    one = ('^([a-z]+)@', '')
+    two = ('^([a-z]+)\\.([a-z]+)@', '')
+    letters = lambda n, k=0: bytes(97 + (i + k) % 26 for i in range(n))
+    out = []
+
+    def add(cond, pats, action, to, xlabel=None, name='1.host', expect_label=None):
+        conf = 'maildir "~/md" {\n\tmatch %s %s\n}\n' % (cond, action)
+        msg = b'To: ' + to + b'@example.com\n' + (b'X-Label: ' + xlabel + b'\n' if xlabel is not None else b'') + b'Subject: exact sizes\n\nbody\n'
+        out.append((ec.Case(conf, pats, msg, 'new', name, '0'), {'xlabel': expect_label}))
+
+    c1 = 'header "To" /^([a-z]+)@/'
+    c2 = 'header "To" /^([a-z]+)\\.([a-z]+)@/'
+    for n in lens:
+        cap = letters(n)
+        # the capture alone: ends at n in interpolate()'s buffer, and (label) in the X-Label buffer
+        add(c1, [one], 'label "\\1"', cap, expect_label=cap)
+        add(c1, [one], 'exec { "echo" "\\1" }', cap)
+        add(c1, [one], 'add-header "X-Out" "\\1"', cap)
+        add(c1, [one], 'move "\\1"', cap)
+        # literal text before: the capture starts at 1 / 7 and ends at n
+        add(c1, [one], 'label "x\\1"', letters(n - 1), expect_label=b'x' + letters(n - 1))
+        add(c1, [one], 'add-header "X-Out" "prefix-\\1"', letters(n - 7))
+        add(c1, [one], 'exec { "echo" "p\\1" "\\1s" }', letters(n - 1))
+        # literal text after: the capture ends at n, the string does not
+        add(c1, [one], 'label "\\1-tail"', cap, expect_label=cap + b'-tail')
+        add(c1, [one], 'add-header "X-Out" "\\1 and more"', cap)
+        # two configured labels: "ab" + " " + capture ends at n in the X-Label buffer
+        add(c1, [one], 'label { "ab" "\\1" }', letters(n - 3), expect_label=b'ab ' + letters(n - 3))
+        # an existing X-Label value of n bytes, and one that the new label completes to n bytes
+        if n <= 520:
+            old = b' '.join([b'list'] * 200)[:n - 1] + b'x'
+            add('all', [], 'label "new"', b'user', xlabel=old, expect_label=old + b' new')
+            add(c1, [one], 'label "\\1"', letters(27), xlabel=old[:n - 28], expect_label=old[:n - 28] + b' ' + letters(27))
+        # two captures in a row: the first ends at 64 (or n - 64), the second at n
+        if n >= 66:
+            for a in sorted({64, n - 64, n // 2} - {0, n}):
+                if 0 < a < n:
+                    add(c2, [two], 'label "\\1\\2"', letters(a) + b'.' + letters(n - a, 3), expect_label=letters(a) + letters(n - a, 3))
+                    add(c2, [two], 'exec { "echo" "\\2\\1" "\\1-\\2" }', letters(a) + b'.' + letters(n - a, 3))
+        # ${path} of n bytes (the length of the file name decides), alone and after literal text
+        base = len(tdir) + len('/md/new/')
+        for k in (n, n - 1):
+            if 3 <= k - base <= 255:
+                nm = '1.' + 'h' * (k - base - 2)
+                add('all', [], 'exec { "echo" "${path}" "x${path}" }', b'user', name=nm)
+                add('all', [], 'add-header "X-Path" "${path}"', b'user', name=nm)
+    return out
+
+
 # --------------------------------------------------------------------------
 # C12_macros: parse-time expansion of the real parser against Spec.mexpand (Spec/Macro.lean)
 # --------------------------------------------------------------------------
@@ -122,19 +179,30 @@ def macro_stage(rep, rng, sc, n):
             cases.append((pos, s))
     for _ in range(n):
         cases.append((rng.choice(MACRO_POSITIONS), ''.join(rng.choice(MACRO_PIECES) for _ in range(rng.randrange(1, 6)))))
+    evalue = {}
+    # exact sizes: a macro value (given with -D) that ends exactly on / one below / one above every capacity of the buffer expandmacros()
+    # builds the string in (64 bytes, doubling; tools/lbuf.py), alone, after literal text, before literal text and after another macro
+    xpos = [p for p in MACRO_POSITIONS if p[0] in ('move', 'label', 'add-header value', 'command', 'maildir path')]
+    for ln in lbuf.exact_lengths(sc.src, 60, 1100):
+        for k, (s, vlen) in enumerate((('${e}', ln), ('x${e}', ln - 1), ('${e}y', ln), ('${a}${e}${a}', ln - 1))):
+            pos = xpos[(k + ln) % len(xpos)]
+            evalue[len(cases)] = bytes(65 + i % 26 for i in range(vlen))
+            cases.append((pos, s))
+    stat_exact = len(evalue)
     sticky = [rng.random() < 0.3 for _ in cases]          # -D b=B: the definition of b in the file is dropped
     reqs, sreqs = [], []
-    for (pos, s), st in zip(cases, sticky):
+    for ci, ((pos, s), st) in enumerate(zip(cases, sticky)):
         conf = MACRO_FILE + pos[2] % s + '\n'
-        defs = [(b'e', b'E${a}')] + ([(b'b', b'B')] if st else [])
-        table = [(k, (b'B' if (st and k == b'b') else v)) for k, v in MACRO_TABLE]
+        ev = evalue.get(ci, b'E${a}')
+        defs = [(b'e', ev)] + ([(b'b', b'B')] if st else [])
+        table = [(k, (b'B' if (st and k == b'b') else ev if k == b'e' else v)) for k, v in MACRO_TABLE]
         reqs.append('conf %s %s %s' % (vlib.hexs(conf.encode()), vlib.hexs(b'/home/u'), ' '.join('%s %s' % (vlib.hexs(k), vlib.hexs(v)) for k, v in defs)))
         sreqs.append('S mexpand %s %s %s' % (vlib.hexs(b'1' if pos[1] else b'0'), vlib.hexs(s.encode()),
                                             ' '.join('%s %s' % (vlib.hexs(k), vlib.hexs(v)) for k, v in table)))
     impl = vlib.run_batch([h], reqs, henv)
     spec = vlib.run_batch([vlib.driver_path()], sreqs)
-    bad, stat = [], {'cases': len(cases), 'expanded': 0, 'errors': 0, 'with_reference': 0, 'sticky': sum(sticky)}
-    for (pos, s), st, im, sp in zip(cases, sticky, impl, spec):
+    bad, stat = [], {'cases': len(cases), 'exact_size_values': stat_exact, 'expanded': 0, 'errors': 0, 'with_reference': 0, 'sticky': sum(sticky)}
+    for ci, ((pos, s), st, im, sp) in enumerate(zip(cases, sticky, impl, spec)):
         if '${' in s:
             stat['with_reference'] += 1
         what = None
@@ -157,7 +225,8 @@ def macro_stage(rep, rng, sc, n):
         else:
             what = 'driver answered %s' % sp[:100]
         if what:
-            bad.append({'position': pos[0], 'action_context': pos[1], 'string': s, 'D_b': st, 'what': what})
+            bad.append({'position': pos[0], 'action_context': pos[1], 'string': s, 'D_b': st, 'what': what[:600],
+                        'D_e': ('%d bytes: ' % len(evalue[ci]) + evalue[ci].decode()) if ci in evalue else 'E${a}'})
     for b in bad[:5]:
         rep.finding('unlisted', dict(b, kind='parse-time macro expansion'))
     return stat, bad
@@ -228,6 +297,11 @@ def run(rep):
             c = ec.Case(conf, [('(u[^@]*)@(.*)', ''), ('(.)(x)?(.*)', '')], b'To: user@example.com\nSubject: hx tail\n\nbody\n', 'new', '1.host', '0')
             cases.append(c)
             bcases[id(c)] = t
+    # exact sizes: results and substituted pieces that end exactly on / one below / one above every capacity of the buffers they are built in
+    xmeta = {}
+    for c, meta in exact_cases(sc.src, sc.dir + '/heXXXXXX'):
+        cases.append(c)
+        xmeta[id(c)] = meta
     ec.run_cases(h, env, cases, want_spec=False)
     corr_bad, checks, faults = [], [], []
     for c in cases:
@@ -276,6 +350,9 @@ def run(rep):
     bstat = {'templates': len(btemplates), 'cases': len(bcases), 'judged': 0, 'outside_spec_model_only': 0, 'spec_error': 0, 'impl_error': 0,
              'model_mismatches': sum(1 for c in corr_bad if id(c) in bcases),
              'not_evaluated': sum(1 for c in cases if id(c) in bcases and (c.model is None or not (c.impl or '').startswith('MATCH')))}
+    xstat = {'cases': len(xmeta), 'judged': 0, 'lengths': lbuf.exact_lengths(sc.src, 60, 1100),
+             'not_evaluated': sum(1 for c in cases if id(c) in xmeta and (c.model is None or not (c.impl or '').startswith('MATCH'))),
+             'model_mismatches': sum(1 for c in corr_bad if id(c) in xmeta)}
     for c, e, pre, items in checks:
         res = outs[pos:pos + len(items)]
         pos += len(items)
@@ -288,6 +365,7 @@ def run(rep):
         if any(r == 'UNDEFINED' for r in res):
             stat['undefined'] += 1
             continue
+        xstat['judged'] += id(c) in xmeta
         exp_err = any(r == 'ERROR' for r in res)
         impl_err = len(e) >= 4 and e[3] == 'INTERR'
         if exp_err or impl_err:
@@ -314,7 +392,14 @@ def run(rep):
             elif kind.startswith('label:'):
                 labels.setdefault(i, []).append(want)
             elif kind.startswith('hdr:'):
-                pass    # several settings of one name: only the last is visible; checked through the model correspondence
+                # several settings of one name: only the last is visible (checked through the model correspondence); a name set once
+                # by add-header (and not the label header) must carry exactly the interpolated value
+                key = kind[4:].lower()
+                if key != 'x-label' and sum(1 for (k2, i2, t2, c2) in items if k2.lower() == kind.lower()) == 1:
+                    got = table_value(e[4], key.encode('latin-1'))
+                    if got != want:
+                        spec_bad.append((c, 'header %s is %r, specification %r' % (kind[4:], None if got is None else got[:80] + b'...' * (len(got) > 80),
+                                                                                   want[:80] + b'...' * (len(want) > 80)), res))
         if labels:
             # the final X-Label ends with the interpolated configured strings of the last label action
             last = max(labels)
@@ -323,6 +408,14 @@ def run(rep):
             later_hdr = any(k.lower() == 'hdr:x-label' and i > last for (k, i, t, cp) in items)
             if not later_hdr and (val is None or not val.endswith(want)):
                 spec_bad.append((c, 'X-Label is %r, must end with %r' % (val, want), res))
+        full = xmeta.get(id(c), {}).get('xlabel')
+        if full is not None:
+            # exact-size family: the whole value is known (existing labels, then the interpolated configured ones)
+            val = table_value(e[4], b'X-Label')
+            if val != full:
+                spec_bad.append((c, 'X-Label has %s bytes %r, must be the %d bytes %r' % (
+                    'no' if val is None else len(val), None if val is None else val[:40] + b'...' + val[-20:] if len(val) > 70 else val, len(full),
+                    full[:40] + b'...' + full[-20:] if len(full) > 70 else full), res))
     for c, what, res in spec_bad[:5]:
         rep.finding('unlisted', dict(c.readable(), what=what, implementation=c.impl[:1500], specification=res))
     for c in faults[:5]:
@@ -332,8 +425,15 @@ def run(rep):
                        'disagreements': len(corr_bad),
                        'examples': [dict(c.readable(), implementation=ec.impl_core(c), model=c.model) for c in corr_bad[:5]]}, False)
     mstat, mbad = macro_stage(rep, rng, sc, 400 if rep.tier == 'quick' else 20000)
+    # the buffer all of these strings are built in, against its index-level model and the append statement (tools/lbuf.py; C07 runs the long form)
+    bstage = lbuf.stage(rep, sc, random.Random(rep.seed * 7919 + 12), 700 if rep.tier == 'quick' else 6000, big=False)
+    # an interpolated move destination combined with flag actions of the same rule, on the real binary (tools/c12merge.py; F26)
+    import proc
+    import c12merge
+    mgstat = c12merge.stage(rep, proc.Tools(sc))
     vlib.lean_conclude(rep)
     rep.coverage.update({
+        'move_flag_merge': mgstat,
         'macro_expansion': mstat,
         'macro_spec_failures': len(mbad),
         'macro_rule': 'C12_macros: strings over `$ { } ${name} ${path} ${nosuch} ${` in each of the 11 string positions of the grammar (move, label, '
@@ -355,6 +455,11 @@ def run(rep):
                                                 'matching patterns; judged by Spec.interp (a number above INT_MAX is an error: message untouched); after the dot also the '
                                                 'sign/blank forms strtoul accepts with |n| around 2^31, 2^32, 2^63, 2^64-2^32, 2^64-2^31, 2^64 (outside the '
                                                 'specification: Model.strtoul against glibc strtoul through the exact model comparison)'),
+        'exact_sizes': dict(xstat, rule='captures, ${path} values and existing / configured labels of exactly the capacities of the buffers the strings are '
+                                        'built in (read from the buffer_alloc() calls of the source: interpolate 64, X-Label 128, doubling), one less and one more: '
+                                        'alone, after and before literal text, two in a row, appended to an existing X-Label; in label / exec / add-header / move; '
+                                        'judged by Spec.interp per template, the whole X-Label value and the value of a header added once'),
+        'libks_buffer': bstage,
         'correspondence_mismatches': len(corr_bad),
         'spec_failures': len(spec_bad),
         'sanitizer_faults': len(faults),
@@ -368,6 +473,10 @@ def replay(rep, path):
     sc = vlib.Scratch()
     h, env = ec.harness(sc)
     vlib.lean_gate(rep, 'C12', sc, [])
+    if str(j.get('stage', '')).startswith('libks buffer'):
+        lbuf.replay(rep, sc, j)
+        rep.coverage.update({'evaluations': 1, 'distinct_nontrivial': 1})
+        return
     js = j.get('examples', [j])
     for e in js:
         out = vlib.run_batch([h], [e['request']], env)
